@@ -33,6 +33,8 @@ Property clause → theorem
 * "… or reports failure at any point": the wrapper only sees what the closure returns → `wrapped_units_propagate_errors`
   (every error produced inside a closure is returned, up to the reviewed list `swallowReviewed`),
   `units_use_their_cache_context`, `per_item_units_can_report_failure` (table).
+* "vault count vs stored vault list … used to slice the list in both sweeps": the slice theorems hold for a counter and a
+  list read at the same moment → `sweep_bounds_read_with_list` (table `sliceFacts`).
 * the table is not empty / not stale → `table_pins`.
 
 Level: proof of the wrapper logic and of the table obligations; what a Go panic and a real store write do is
@@ -514,6 +516,35 @@ theorem per_item_units_can_report_failure :
       [("liquidity.BeginBlocker", "BeginBlocker", 1), ("auctionsV2.BeginBlocker", "BeginBlocker", 1),
        ("auctionsV2.BeginBlocker", "BeginBlocker", 1), ("rewards.BeginBlocker", "BeginBlocker", 1)] := by decide
 
+/-! ### Where the bounds of the unwrapped slice expressions come from (`sliceFacts`)
+
+`sweep_total_if_counter_le_cap` speaks about ONE reading of the store: the counter and the list as they are at the
+same moment. In a sweep that loops over apps the units of an earlier iteration delete vaults and lower the counter, so
+both must be read again in every iteration. The extractor traces the bound variables of every unwrapped
+`list[start:end]` back to the calls they derive from and says, for the list and for each source, whether it is read in
+the same innermost loop iteration as the slice expression. -/
+
+/-- sources that may be read once before the loop: nothing a liquidation unit does changes them -/
+def loopInvariantSources : List String := [
+  "k.GetParams",                 -- module params (batch size): changed by governance only
+  "k.GetAppIdsForLiquidation"    -- the whitelist the loop ranges over: changed by governance only
+]
+
+def sliceFactOk (f : SliceFact) : Bool :=
+  f.listSameLoop && f.sources.all fun s => s.sameLoop || loopInvariantSources.contains s.callee
+
+/-- does the fact have a length source (the stored counter, or `len` of the list itself) read with the list? -/
+def hasFreshLength (f : SliceFact) : Bool :=
+  f.sources.any fun s => s.sameLoop &&
+    ((f.listSrc == "k.vault.GetVaults" && s.callee == "k.vault.GetLengthOfVault") ||
+     (f.expr == "borrowIDs[start:end]" && s.callee == "len(borrowIDs)"))
+
+/-- **The sweeps slice a list by a length read in the same iteration**: for every unwrapped `list[start:end]` the
+list and everything its bounds derive from (counter, offset holder) are read in the same loop iteration as the slice
+expression, except the reviewed loop-invariant sources. Hoisting the counter read out of the per-app loop of the
+first-generation vault sweep (while the list is re-read per app) fails here. -/
+theorem sweep_bounds_read_with_list : ∀ f ∈ sliceFacts, sliceFactOk f = true ∧ hasFreshLength f = true := by decide
+
 /-- nothing outside the two vault sweeps depends on the vault counter, and nothing else is conditional -/
 theorem d3_only_in_the_vault_sweeps :
     (unwrapped.filter fun e => conditionalD3.contains (key e)).length ≤ 2 := by decide
@@ -525,6 +556,11 @@ removes two of them — and spot entries, so that an extractor that returns litt
 theorem table_pins :
     blockers.length = 12 ∧ units.length = 17 ∧ unwrapped.length ≥ 150 ∧ wrappedEntries.length ≥ 150 ∧
     entries.length ≥ 380 ∧ errorSites.length ≥ 120 ∧
+    (sliceFacts.map fun f => (f.blocker, f.inFn, f.expr, f.listSrc)) =
+      [("liquidation.BeginBlocker", "LiquidateVaults", "totalVaults[start:end]", "k.vault.GetVaults"),
+       ("liquidation.BeginBlocker", "LiquidateBorrows", "borrowIDs[start:end]", "k.lend.GetBorrows"),
+       ("liquidationsV2.BeginBlocker", "LiquidateVaults", "totalVaults[start:end]", "k.vault.GetVaults"),
+       ("liquidationsV2.BeginBlocker", "LiquidateBorrows", "borrowIDs[start:end]", "k.lend.GetBorrows")] ∧
     (errorSites.any fun s => s.blocker == "liquidationsV2.BeginBlocker" && s.inFn == "LiquidateVaults" &&
         s.callee == "k.LiquidateIndividualVault" && s.disp == "returned") = true ∧
     (errorSites.any fun s => s.blocker == "liquidation.BeginBlocker" && s.callee == "k.CreateLockedVault" && s.disp == "returned") = true ∧
